@@ -36,6 +36,11 @@ type c19gLoop struct {
 	accWrite []*ast.AssignStmt
 	why      string
 	path     []ast.Node
+	// repairs: assignments inside the loop that replace the evaluation result by another value
+	// (the IGNORE arms); repairWhy is set when one of them is not computed from the accumulator
+	repairs   int
+	repairWhy string
+	repairPos ast.Node
 }
 
 func (a *c19g) accessorKind(info *types.Info, e ast.Expr, fd *ast.FuncDecl) (string, *ast.CallExpr) {
@@ -152,6 +157,74 @@ func (a *c19g) loopShape(pk *packages.Package, fd *ast.FuncDecl, rs *ast.RangeSt
 		}
 		return false
 	}
+	// the value that replaces the accumulator must be computed from the accumulator: either the
+	// evaluation result itself, or a repair of (a copy of) the accumulator
+	isRowish := func(o types.Object) bool {
+		if types.Identical(o.Type(), a.rowT) {
+			return true
+		}
+		it, ok := o.Type().Underlying().(*types.Interface)
+		return ok && it.NumMethods() == 0
+	}
+	fromAcc := map[types.Object]bool{lp.acc: true}
+	for o := range fromVal {
+		fromAcc[o] = true
+	}
+	for changed := true; changed; {
+		changed = false
+		// only copies taken inside the loop body count: a snapshot taken before the loop is stale
+		ast.Inspect(rs.Body, func(n ast.Node) bool {
+			as, ok := n.(*ast.AssignStmt)
+			if !ok || as == lp.evalAs {
+				return true
+			}
+			m := false
+			for _, r := range as.Rhs {
+				if c19gMentionsAny(info, r, func(o types.Object) bool { return fromAcc[o] }) {
+					m = true
+				}
+			}
+			if m {
+				for _, l := range as.Lhs {
+					if o := c19gObjOf(info, l); o != nil && !fromAcc[o] && isRowish(o) {
+						fromAcc[o] = true
+						changed = true
+					}
+				}
+			}
+			return true
+		})
+	}
+	ast.Inspect(rs.Body, func(n ast.Node) bool {
+		as, ok := n.(*ast.AssignStmt)
+		if !ok || as == lp.evalAs {
+			return true
+		}
+		for i, l := range as.Lhs {
+			o := c19gObjOf(info, l)
+			if o == nil || !fromVal[o] || !isRowish(o) {
+				continue
+			}
+			var rhs ast.Expr
+			if len(as.Lhs) == len(as.Rhs) {
+				rhs = as.Rhs[i]
+			} else if len(as.Rhs) == 1 {
+				rhs = as.Rhs[0]
+			}
+			if rhs == nil {
+				continue
+			}
+			if c19gMentionsAny(info, rhs, func(x types.Object) bool { return fromVal[x] }) {
+				continue // a conversion of the evaluation result (`next, ok := val.(Row)`)
+			}
+			lp.repairs++
+			if !c19gMentionsAny(info, rhs, func(x types.Object) bool { return fromAcc[x] && isRowish(x) }) && lp.repairWhy == "" {
+				lp.repairWhy = fmt.Sprintf("after a failed evaluation `%s` takes the place of the evaluation result and then of `%s`, but it is not computed from `%s`: the assignments applied so far are dropped and columns the statement does not assign are overwritten", shortNode(a.c.P.Fset, as), lp.acc.Name(), lp.acc.Name())
+				lp.repairPos = as
+			}
+		}
+		return true
+	})
 	ast.Inspect(rs.Body, func(n ast.Node) bool {
 		if as, ok := n.(*ast.AssignStmt); ok && isAccWrite(as) {
 			lp.accWrite = append(lp.accWrite, as)
@@ -260,6 +333,7 @@ func (a *c19g) appliers(pk *packages.Package) {
 				} else {
 					c.Ok("C19-G3", key, x.Pos(), fmt.Sprintf("each %s expression is evaluated over `%s`, which is replaced by the result before the next one", kind, lp.acc.Name()))
 				}
+				a.reportRepair(name+"/"+kind+"-loop", name, lp)
 				app := &c19gApp{kind: kind, form: "inline", rs: x, node: x.X, in: lp.acc, out: lp.acc}
 				if len(lp.accWrite) > 0 {
 					app.write = lp.accWrite[0]
@@ -353,6 +427,7 @@ func (a *c19g) appliers(pk *packages.Package) {
 						} else {
 							c.Ok("C19-G3", lkey, hd.Pos(), fmt.Sprintf("each expression is evaluated over `%s`, which is replaced by the result before the next one and is what the function returns", lp.acc.Name()))
 						}
+						a.reportRepair(lkey, DeclName(hd), lp)
 					}
 					if lp.why != "" {
 						undecided = true
@@ -747,6 +822,19 @@ func (a *c19g) applier(pk *packages.Package, fd *ast.FuncDecl, apps []*c19gApp) 
 		}
 	}
 	c.Ok("C19-G4", key, eqs[0].call.Pos(), fmt.Sprintf("compares the row before the user's assignments (%v) with the row after them (`%s`)", names, X.Name()))
+}
+
+// reportRepair records the "repair derives from the accumulator" verdict of a loop that has repair arms.
+func (a *c19g) reportRepair(loopKey, fname string, lp *c19gLoop) {
+	if lp.acc == nil || lp.repairs == 0 {
+		return
+	}
+	key := loopKey + "/repair-from-accumulator"
+	if lp.repairWhy != "" {
+		a.c.Bad("C19-G3", key, lp.repairPos.Pos(), fname+": "+lp.repairWhy)
+		return
+	}
+	a.c.Ok("C19-G3", key, lp.evalAs.Pos(), fmt.Sprintf("the value that replaces a failed evaluation is computed from `%s` (%d repair arm(s))", lp.acc.Name(), lp.repairs))
 }
 
 func c19gExprOrVar(ap *c19gApp) string {
